@@ -42,7 +42,8 @@ LEVEL_TEXT = ("Exploration: hundreds to thousands of stacks (all permutations of
               " Trees derived from an already rasterised tree (sort_tree, redirect_tree, a tip re-attached in place) are rasterised too."
               " Fortran-ordered, transposed and strided stacks; the rasteriser object is also re-used after another tree and a call with malformed ranges."
               " Trees naming one source file on one rasteriser; stacks holding only small integers (0/1 masks)."
-              " Neurites lying in a plane thinner than a voxel; dtypes spelled as scalar type / dtype object / name; voxels whose level x maximum is an exact integer must convert exactly.")
+              " Neurites lying in a plane thinner than a voxel; dtypes spelled as scalar type / dtype object / name; voxels whose level x maximum is an exact integer must convert exactly."
+              " Flat neurites in one optical section (a raster of one z slice, saved and read back); two rasters of one transformer taken slice by slice in turns.")
 LEVEL_NOTE = ("Raster workload bounded to proper round cones (segment longer than the radius "
               "difference by a margin) and trees with >= 2 nodes; a voxel centre within 1e-3 of the "
               "surface, or a boundary centre within 1e-4 of the upper bound, is not decided. Trusts "
@@ -62,7 +63,8 @@ REQUIRED = ["io_roundtrips", "io_tiff", "io_npy", "io_nrrd", "io_uint_to_float",
             "rasters_after_inplace_edit", "rasters_of_derived_trees", "io_non_contiguous_input",
             "io_small_integer_values", "io_dtype_spelled_as_object_or_name", "rasters_one_voxel_thick",
             "io_float_stacks_holding_exactly_one",
-            "transformer_reused", "rejected_calls_before_raster",
+            "transformer_reused", "rejected_calls_before_raster", "rasters_interleaved",
+            "raster_one_slice_saved_and_read",
             "tap_get_samplers"]
 FLOOR = {"quick": 450, "thorough": 45000}
 SHARDS = {"quick": 8, "thorough": 16}
@@ -333,6 +335,46 @@ def check_raster(ctx, case, tmp):
                 raise
     if _raster_pass(ctx, case, tmp, tree, pid, tf, res_arg, "") is not True:
         return
+    if case.get("interleave") and case["ranges"] == "auto":
+        # two rasters of one transformer produced slice by slice in turns (the slices come from a
+        # generator): each must be what the same call gives when it runs alone
+        from swcgeom.core import Tree as _T
+
+        rng = np.random.default_rng(case["seed"] + 23)
+        shift = rng.integers(-6, 7, 3).astype(np.float32) * np.float32(np.mean(case["res"]))
+        other = _T(len(pid), pid=np.array(tree.pid()), type=np.array(tree.type()),
+                   x=tree.x()[::-1].copy() + shift[0], y=tree.y() * np.float32(0.5) + shift[1],
+                   z=tree.z()[::-1].copy() + shift[2], r=tree.r() * np.float32(1.3),
+                   source=tree.source)
+        try:
+            alone_a = np.stack(list(tf.transform(tree, verbose=False)), axis=0)
+            alone_b = np.stack(list(tf.transform(other, verbose=False)), axis=0)
+            ga, gb = tf.transform(tree, verbose=False), tf.transform(other, verbose=False)
+            sa, sb = [], []
+            while ga is not None or gb is not None:
+                for g_, acc in ((ga, sa), (gb, sb)):
+                    if g_ is not None:
+                        try:
+                            acc.append(next(g_))
+                        except StopIteration:
+                            if g_ is ga:
+                                ga = None
+                            else:
+                                gb = None
+            ctx.count("rasters_interleaved")
+            for nm, alone, turn in (("first", alone_a, sa), ("second", alone_b, sb)):
+                got = np.stack(turn, axis=0) if turn else np.zeros((0,))
+                if got.shape != alone.shape or not np.array_equal(got, alone):
+                    return ctx.violation("interleaved-rasters-differ",
+                                         f"two rasters of one ToImageStack({res_arg}) taken slice by "
+                                         f"slice in turns: the {nm} one (shape {got.shape}) differs "
+                                         f"from the same raster produced alone (shape {alone.shape}, "
+                                         f"{int((got != alone).sum()) if got.shape == alone.shape else '?'}"
+                                         f" voxels)", case)
+        except BaseException as e:
+            if isinstance(e, (KeyboardInterrupt, SystemExit, probes.StepBudgetExceeded)):
+                raise
+            ctx.skip("interleaved rasters: the shifted twin could not be rasterised")
     if case.get("edit") and case["ranges"] == "auto":
         # the same transformer on the same tree object after an in-place edit through node
         # handles: the raster must follow the new geometry
@@ -516,6 +558,8 @@ def _raster_pass(ctx, case, tmp, tree, pid, tf, res_arg, prefix, geom=None):
             warnings.simplefilter("ignore")
             back = np.asarray(read_imgs(f, dtype=np.uint8).get_full())
         ctx.count("raster_saved_and_read")
+        if Zn == 1 and Xn != Yn:
+            ctx.count("raster_one_slice_saved_and_read")
         if back.shape != (Xn, Yn, Zn, 1) or not np.array_equal(back[..., 0],
                                                                img.transpose(1, 2, 0)):
             return ctx.violation("saved-raster-differs",
@@ -614,8 +658,15 @@ def run(ctx):
                     "res_form": str(rng.choice(["list", "tuple", "array", "array32"]))}
             if rng.random() < 0.4:
                 case["derive"] = str(rng.choice(["sort", "reroot", "relink"]))
-            if rng.random() < 0.12 and not whole_brain:
-                case["planar"] = int(rng.integers(0, 2))
+            if rng.random() < 0.16 and not whole_brain:
+                case["planar"] = int(rng.integers(0, 3))
+                if case["planar"] == 2:
+                    # a flat neurite in one optical section: a raster of exactly one z slice, which
+                    # is also saved and read back
+                    case["res"] = [case["res"][0], case["res"][1], 1.0]
+                    case["scalar_res"] = False
+                    case["ranges"], case["save"] = "auto", True
+            case["interleave"] = bool(rng.random() < 0.2)
             if case["ranges"] == "slab":  # long thin segments, so that they cross the tile
                 case["step"], case["rscale"] = 6.0, 0.8
             if whole_brain:  # short segments (1-2 voxels of 1/8), still far longer than an ulp
